@@ -189,7 +189,7 @@ def debug_names(text, fname):
     return names
 
 
-def sym_inputs(fn, names):
+def sym_inputs(fn, names, mode='REAL'):
     init = []
     order = []
     ranges = []
@@ -200,7 +200,12 @@ def sym_inputs(fn, names):
         pname = names.get(loc, 'p%d' % loc)
         for i, lt in enumerate(lts):
             nm = '%s.%d' % (pname, i) if len(lts) > 1 else pname
-            if lt in mir.FLOATS:
+            if lt in mir.FLOATS and mode == 'FP':
+                fs = 'F64' if lt == 'f64' else 'F32'
+                v = var(nm, fs)
+                # every finite float: not NaN, not infinite
+                ranges.append(band(bnot(T.mk('Bool', 'fp.isNaN', v)), bnot(T.mk('Bool', 'fp.isInfinite', v))))
+            elif lt in mir.FLOATS:
                 v = var(nm, 'Real')
             elif lt == 'bool':
                 v = var(nm, 'Bool')
@@ -281,9 +286,12 @@ class Check:
     def schedule(s, o):
         if 'schedule' in o and s.tier in o['schedule']:
             return o['schedule'][s.tier]
+        if o.get('mixed_int'):
+            # mixed integer/real linear arithmetic (fmod contracts): cvc5 decides these instantly, z3 does not
+            return [('cvc5', 10), ('z3', 6), ('z3-new', 12)] if s.tier == 'quick' else [('cvc5', 60), ('z3', 30), ('z3-new', 60)]
         if s.tier == 'quick':
             return [('z3', 6), ('z3-new', 12), ('z3', 25)]
-        return [('z3', 10), ('z3-new', 40), ('z3', 120), ('z3-new', 120)]
+        return [('z3', 10), ('z3-new', 40), ('cvc5', 20), ('z3', 120), ('z3-new', 120)]
 
     # ---------------- feasibility of forks
     def make_feasible(s, o):
@@ -329,8 +337,8 @@ class Check:
                 s.functions.add(re.sub(r'\s+', ' ', sc))
         names = debug_names(s.text, h)
         T_before = len(T.lst)
-        init, order = sym_inputs(fn, names)
-        m = Machine(s.fns, 'REAL', feasible=s.make_feasible(o), fuel=o.get('fuel', 400000), max_forks=o.get('max_forks', 512))
+        init, order = sym_inputs(fn, names, o.get('mode', 'REAL'))
+        m = Machine(s.fns, o.get('mode', 'REAL'), feasible=s.make_feasible(o), fuel=o.get('fuel', 400000), max_forks=o.get('max_forks', 512))
         if o.get('pi_symbolic', False):
             from .axioms import pi
             def fl(c, _m=m):
